@@ -425,6 +425,27 @@ func c11Chain(w *core.W, j int) {
 		}
 	}
 	walk(envs, "intact", true)
+	// the fudge window applies to every envelope, also to those verified over the timers only: each
+	// envelope, against its true predecessor, at the edges of its window and one second beyond
+	for i, e := range envs {
+		pm := reqMAC
+		if i > 0 {
+			pm = macs[i-1]
+		}
+		t := signedAt + uint64(i)
+		for _, now := range []uint64{t + 300, t - 300, t + 301, t - 301, t + 100000} {
+			verr := dns.VerifTsigVerify(append([]byte(nil), e...), provider, hex.EncodeToString(pm), i > 0, now)
+			ma, why := c11ModelVerify(e, secrets, pm, i > 0, now)
+			w.Eval(1)
+			w.Count("chain_window_checks", 1)
+			if verr == nil && !ma {
+				w.Violation("C11/chain-accepts/outside-window", fmt.Sprintf("envelope %d of %d (timers only: %v), signed at %d with fudge 300, verifies at time %d: %s", i, n, i > 0, t, now, why), map[string]any{"envelope": hx(e), "prev_mac": hex.EncodeToString(pm)})
+			}
+			if verr != nil && ma {
+				w.Violation("C11/chain-rejected/inside-window/"+alg, fmt.Sprintf("envelope %d of %d (timers only: %v), signed at %d with fudge 300, is rejected at time %d: %v", i, n, i > 0, t, now, verr), map[string]any{"envelope": hx(e), "prev_mac": hex.EncodeToString(pm)})
+			}
+		}
+	}
 	if n >= 2 {
 		k := r.IntN(n - 1)
 		// removal
